@@ -2,6 +2,8 @@ import Ptn.C16.Lemmas
 /-! Tree bookkeeping for C16: which operations `from_ttns` performs on a given tree. -/
 namespace Ptn.C16
 
+set_option linter.unusedSectionVars false
+
 variable {α : Type} [DecidableEq α]
 
 /-- what the identifier maps must satisfy on the identifiers `S` of the state -/
